@@ -49,6 +49,7 @@ def plan(tier, seed):
             cases.append({'cls': c})
     heavy = [{'cls': 'incompressible', 'delta': d} for d in (-2, -1, 0, 1, 2)]
     heavy += [{'cls': 'near_compressed', 'target': t} for t in ((-400, 0, 400) if tier == 'quick' else (-900, -300, -100, 0, 100, 300, 900))]
+    heavy += [{'cls': 'edge_compressed', 'over': d} for d in ((-1, 0, 1, 2, 8, 9) if tier == 'quick' else (-3, -2, -1, 0, 1, 2, 3, 4, 5, 6, 7, 8, 9, 10, 16))]
     heavy += [{'cls': 'oversize', 'n': n} for n in ((LIMIT + 65 + 900, 20000) if tier == 'quick' else (LIMIT + 65 + 900, 20000, 30000, 66000, 70000))]
     heavy += [{'cls': 'oversize', 'n': 21000, 'entry': 'build', 'dest_exists': False}, {'cls': 'oversize', 'n': 24000, 'entry': 'build', 'dest_exists': True}]
     heavy += [{'cls': 'repetitive_big', 'n': n} for n in ((20000,) if tier == 'quick' else (20000, 40000, 65535))]
@@ -71,6 +72,8 @@ def make_code(rng, c):
         return rng.choice((b'x', b';', b'\n', b'a', b'1'))
     if cls == 'short':
         return rng.choice((b'x=1', b'x=1\n', b'print("hi")\n', b'a=b\nc=d', b'-- t\n'))
+    if cls == 'convert' and rng.random() < 0.3:
+        return b''       # (a cart without code: PICO-8 saves it without a Lua section)
     if cls in ('typical', 'stream_entry', 'convert', 'version0', 'cli_entry'):
         return carts.simple_lua(rng, rng.choice((40, 300, 2000, 6000)))
     if cls == 'glyphs':
@@ -92,6 +95,10 @@ def make_code(rng, c):
             # transformation nobody asked for could make of it
             return b'-- title\n-- author\nx=1\n' + carts.incompressible(rng, c['n']) + b'\ny=2\n'
         return carts.incompressible(rng, c['n'])
+    if cls == 'edge_compressed':
+        # the compressed stream ends `over` bytes past (or before) the last byte of the code area: the cart either comes back whole or
+        # is refused
+        return carts.edge_text(__import__('random').Random(c['over'] * 31 + 7), LIMIT - 8 + c['over'])
     if cls == 'near_compressed':
         # random lower-case words: mostly literals, some short matches; tune length with the reference encoder
         def text(n):
@@ -202,6 +209,13 @@ def run_case(ctx, rng, c, workdir):
     if own_label is not None:
         ctx.feature('cart_has_label_of_its_own')
     g = carts.make_game(regions, code=code, version=version, label=own_label)
+    if version != 0 and rng.random() < 0.25:
+        # the cart's version and the version its code object was made for are independent attributes (code taken over from another
+        # cart, as `build --lua` does; a .p8 without Lua section keeps the default code object): the file carries the cart's version
+        from pico8.lua.lua import Lua
+        g.lua = Lua.from_lines([code], version=rng.choice([v for v in (33, 8, 41, 1, 255) if v != version]))
+        ctx.feature('code_object_of_another_version')
+        case['history'] = 'game.lua was replaced by a Lua object made for another version before saving'
     # the same destination path is reused for the whole shard: a write must take its label from what is at the path NOW
     dest = os.path.join(workdir, BASE[0] + '.p8.png')
     if os.path.exists(dest):
@@ -260,7 +274,10 @@ def run_case(ctx, rng, c, workdir):
             # .p8 -> .p8.png through the file API
             src = os.path.join(workdir, 'src%d.p8' % ctx.evaluations)
             with open(src, 'wb') as fh:
-                fh.write(rc.write_p8(regions, code, version=version, label=own_label))
+                # (a cart without code is saved without a Lua section)
+                fh.write(rc.write_p8(regions, code, version=version, label=own_label, omit=('lua',) if not code else ()))
+            if not code:
+                ctx.feature('converted_p8_without_lua_section')
             listing_before = sorted(os.listdir(workdir))
             g1 = p8file.from_file(src)
             p8file.to_file(g1, dest)
@@ -287,6 +304,8 @@ def run_case(ctx, rng, c, workdir):
                           case, key=classify(code, version, 'raised', err))
         else:
             ctx.feature('refused_oversize')
+            if cls == 'edge_compressed':
+                ctx.feature('edge_cart_refused')
             if entry == 'build':
                 ctx.feature('refused_oversize_through_build')
         return
@@ -302,6 +321,8 @@ def run_case(ctx, rng, c, workdir):
         ctx.violation('written file is not a valid cart PNG: %s' % e, case, key=classify(code, version, 'invalid', None))
         return
     ctx.monitor('png_files_validated')
+    if cls == 'edge_compressed':
+        ctx.feature('edge_cart_written')
     # label picture
     got_up = rc.upper_bits(ref['rows'])
     want_up = rc.upper_bits(label_rows)
@@ -337,6 +358,8 @@ def run_case(ctx, rng, c, workdir):
         want_code = code + b'\n'   # the .p8 format supplies the final newline
     if entry == 'cli':
         want_code = norm_code(code) + b'\n'   # the cart went through the raw .p8.png reader first
+    if entry == 'convert' and not code and text == b'':
+        want_code = b''            # (no Lua section, no code: nothing supplies a line)
     if text != want_code:
         d = next((i for i in range(min(len(text), len(want_code))) if text[i] != want_code[i]), min(len(text), len(want_code)))
         ctx.violation('reference decode of the stored code differs at %d (stored %d bytes, cart %d bytes; %s)' % (
@@ -446,6 +469,12 @@ def gates(m, tier):
         missed.append('no oversize cart was refused')
     if mon.get('png_files_validated', 0) < 30 or mon.get('own_reads_compared', 0) < 30:
         missed.append('monitors saw too few files')
+    if f.get('edge_cart_refused', 0) < 1 or f.get('edge_cart_written', 0) < 1:
+        missed.append('carts whose compressed stream ends at the edge of the code area: written %d, refused %d' % (
+            f.get('edge_cart_written', 0), f.get('edge_cart_refused', 0)))
+    if f.get('code_object_of_another_version', 0) < 20 or f.get('converted_p8_without_lua_section', 0) < 1:
+        missed.append('code objects of another version: %d; .p8 without Lua section converted: %d' % (
+            f.get('code_object_of_another_version', 0), f.get('converted_p8_without_lua_section', 0)))
     if f.get('cart_has_label_of_its_own', 0) < 20:
         missed.append('carts with a label of their own: %d' % f.get('cart_has_label_of_its_own', 0))
     return missed
